@@ -1,4 +1,4 @@
 (* Extraction of the C10 acceptor (explains) and monitor. ExtrOcamlBasic only. *)
 From Coq Require Import Extraction ExtrOcamlBasic.
-From Ice Require Import Model.ConvTypes Model.PrioSpec Model.TaskLoop Model.LoopApi Gen.LoopDiscipline.
-Extraction "model.ml" conv_witness explains run observe init C10_checks api_lookup api_predict_returns C10_api_checks failed all_ok.
+From Ice Require Import Model.ConvTypes Model.PrioSpec Model.TaskLoop Model.LoopApi Model.ApiSeq Gen.LoopDiscipline.
+Extraction "model.ml" conv_witness explains run observe init C10_checks api_lookup api_predict_returns C10_api_checks C10_api2_checks aserial api2_outcomes failed all_ok.
